@@ -29,6 +29,11 @@ def explore(ctx):
         lines = ["FUEL 3000", "NEW 0 std", "EVAL 0 " + common.hexs("(import (verif tick))")]
         lines += ["EVAL 0 " + common.hexs(f) for f in forms]
         cases.append({"lines": lines, "forms": forms, "kind": "scope " + name})
+    for k in range(300 if ctx.quick else 4000):
+        forms = gen.repeated_operand_forms(ctx.rng)
+        lines = ["FUEL 3000", "NEW 0 std", "EVAL 0 " + common.hexs("(import (verif tick))")]
+        lines += ["EVAL 0 " + common.hexs(f) for f in forms]
+        cases.append({"lines": lines, "forms": forms, "kind": "repeated operand"})
     n = 1200 if ctx.quick else 8000
     for k in range(n):
         g = gen.Gen(ctx.rng, ticks=True, derived=True, tick_rate=0.3)
@@ -58,7 +63,7 @@ def explore(ctx):
                 "other position holding a ticking expression; (a') every template with one position holding a datum SPELLED like a "
                 "keyword of the templates (the strings \"=>\" \"else\" \"...\" \"_\", quoted else / =>), which is data and leaves the clause "
                 "its ordinary meaning; (b) %d random programs nesting the derived forms inside "
-                "each other and inside procedures with ticking sub-forms. Observables per form: value, tick trace "
+                "each other and inside procedures with ticking sub-forms; (c) forms whose operands are textually identical expressions with an effect (a counter), followed by a probe of the counter. Observables per form: value, tick trace "
                 "(order and multiplicity of evaluation), stdout. non-trivial = distinct form that evaluated and ticked"
                 % ("sampled" if ctx.quick else "all", n),
         "exhaustive": False,
